@@ -3,7 +3,7 @@
    the half-open sign rule, dependence on the rounded input only, the scratch array for every n (incl. n > N). *)
 From Coq Require Import ZArith List Lia.
 From TV Require Import Base.Int32 Ring.NegaRing Model.Numeric Model.Lwe Model.Poly Model.Tlwe Model.Tgsw Model.Bootstrap
-  Proofs.Numeric Proofs.Tlwe Proofs.Tgsw Proofs.BlindRotate Proofs.Bootstrap Proofs.BootPhase.
+  Proofs.Numeric Proofs.Tlwe Proofs.Tgsw Proofs.BlindRotate Proofs.Bootstrap Proofs.BootPhase Proofs.Drift.
 Import ListNotations.
 Local Open Scope Z_scope.
 
@@ -68,6 +68,12 @@ Theorem C04_bootstrap_woKS_phase : forall N, (0 < N)%nat -> inDomain (2 * Z.of_n
     Z.abs e0 <= Z.of_nat (length bk) * beta.
 Proof. exact bootstrap_woKS_phase. Qed.
 Print Assumptions C04_bootstrap_woKS_phase.
+
+(* modulus-switch drift: p scaled back to the torus is the input phase plus the n+1 rounding errors, at most (1+|s|_1)/(4N) in all *)
+Theorem C04_modswitch_drift : forall (N : nat) (S : Z) s x, (0 < N)%nat -> inDomain (2 * Z.of_nat N) -> 2 * Z.of_nat N * S = p32 ->
+  exists d, 2 * Z.abs d <= (1 + Drift.l1 s) * S /\ eqm32 (rot_exponent N s x * S) (lwe_phase s x + d).
+Proof. exact rot_exponent_drift. Qed.
+Print Assumptions C04_modswitch_drift.
 
 Example C04_nonvacuous :
   rotated_testvect [10;20;30;40] 5 = Some [-20;-30;-40;10] /\ anti [10;20;30;40] 5 = -20 /\ anti [10;20;30;40] 3 = 40 /\
